@@ -26,7 +26,9 @@ CLAIM = dict(
           "call the whole-call model covers (whole_call_fwd_lengths, whole_call_back_lengths), and MCALL compares that model's return value, lengths "
           "and output with the implementation (this found F36). Completeness (whole input consumed) is checked on real runs, not proved; "
           "backward: back_lengths (0<=inlen'<=length up to the first NUL, outlen'<=outlen) for any engine satisfying E1/E3; invalid "
-          "arguments (NULL pointers, negative lengths) are outside the model's argument type."),
+          "arguments (NULL pointers, negative lengths) are outside the model's argument type."
+          " Gap, stated: rules with a `;name` (group replacement) action reach the completeness clause only through the fixed witness of F41; "
+          "one more early stop behind such an action is unexplained (corpus/observations), see DESIGN."),
     technique="Lean 4 proof over a hand-written driver model with engines as parameters + trace-validation correspondence + oracle search",
     design="DESIGN.md §7 C04")
 
